@@ -395,6 +395,15 @@ func BvBin(op string, a, b *Term) *Term {
 			return ConstBV(w, r)
 		}
 	}
+	// division of a zero-extended narrow value by a constant that fits: divide
+	// in the narrow width (64-bit division circuits are what makes integer
+	// formatting queries slow)
+	if (op == "bvudiv" || op == "bvurem" || op == "bvsdiv" || op == "bvsrem") && a.op == "zext" && b.IsConst() && b.c != 0 {
+		in := a.args[0]
+		if in.s.W < w && b.c <= mask(in.s.W) && (op[2] == 'u' || sext64(b.c, w) > 0) {
+			return ZExt(BvBin("bvu"+op[3:], in, ConstBV(in.s.W, b.c)), w)
+		}
+	}
 	if b.IsConst() && b.c == 0 && (op == "bvadd" || op == "bvsub" || op == "bvor" || op == "bvxor" || op == "bvshl" || op == "bvlshr" || op == "bvashr") {
 		return a
 	}
